@@ -50,6 +50,7 @@ package bep44
 //@   ensures canonical: bstr(result) == signbuf(bstr(salt), seq, bstr(bv))
 
 //@ func dht/bep44.Verify
+//@   option records verified
 //@   ensures verifies: result == edverify(bstr(k), signbuf(bstr(salt), seq, bstr(bv)), bstr(sig))
 
 //@ func dht/bep44.Check
